@@ -91,6 +91,9 @@ def renderings(line, lang, salt, all_names):
         for i, j in picks:
             if lang == "en":
                 out.append((ats[i][0] + "." + bts[j][0], "%s to %s" % (ats[i][1], bts[j][1])))
+                if i == 0 and salt % 4 == 0:
+                    # a date shown in a zone is still that calendar date: the difference counts days, whatever zone tag an operand carries
+                    out.append((ats[i][0] + ".zoned." + bts[j][0], "%s to %s to %s" % (ats[i][1], ["EST", "GMT+5:30", "CET"][salt % 3], bts[j][1])))
             elif lang == "tr":
                 out.append((ats[i][0] + "." + bts[j][0], "%s %s arası" % (ats[i][1], bts[j][1])))
         return out
